@@ -1,6 +1,7 @@
 package h
 
 import (
+	"syscall"
 	"runtime"
 	"bufio"
 	"encoding/json"
@@ -33,6 +34,12 @@ func TestWorker(t *testing.T) {
 		t.Fatalf("no scenario for %q", spec.Property)
 	}
 	curT = t
+	if !raceEnabled {
+		// a run that balloons must crash this worker with a stack trace (harness trouble with a culprit), not invite the
+		// kernel's OOM killer to pick a victim
+		lim := syscall.Rlimit{Cur: 10 << 30, Max: 10 << 30}
+		_ = syscall.Setrlimit(syscall.RLIMIT_AS, &lim)
+	}
 	f, err := os.Create(spec.Out)
 	if err != nil {
 		t.Fatal(err)
